@@ -169,7 +169,7 @@ class World:
         cls._instance = cls._instances[key]
         return cls._instance
 
-    def __init__(self, streams=('bbb', 'tears', 'synirr', 'synoff', 'synnot', 'synenc', 'synwild', 'synnum', 'synmk', 'syndef', 'syntrk'), users=True, writable_blobs=False, with_subs=True,
+    def __init__(self, streams=('bbb', 'tears', 'synirr', 'synoff', 'synnot', 'synenc', 'synwild', 'synnum', 'synmk', 'syndef', 'syntrk', 'synzero'), users=True, writable_blobs=False, with_subs=True,
                  propagate=False, mps=True, extras=False):
         import logging
         logging.disable(logging.CRITICAL)
@@ -259,6 +259,8 @@ class World:
                 dict(pid='p1', stream='bbb', start=4, duration=32, tracks=[('video', 1), ('audio', 2)]),
                 dict(pid='p2', stream='tears', start=8, duration=44, tracks=[('video', 1), ('audio', 2)]),
             ])
+        if extras:
+            self.add_extras_mps()
         db.session.remove()
         self.ctx.pop()
         self.ctx = None
@@ -361,6 +363,9 @@ class World:
             'synunidx': {'synunidx_v1': dict(kind='video', timescale=1000, durations=(2000, 2000, 2000), file_id=24),
                          'synunidx_v2': dict(kind='video', timescale=1000, durations=(2000, 2000, 2000), file_id=25)},
             'synempty': {},
+            # an audio file that is the timing reference and a video "file" that is not an MP4 at all (never indexed)
+            'synbroken': {'synbroken_a1': dict(kind='audio', timescale=48000, track_id=2, durations=(96000, 96000, 96000), file_id=26),
+                          'synbroken_v1': None},
         }
         for name, files in specs.items():
             d = self.blob_folder / name
@@ -368,7 +373,7 @@ class World:
             stream = models.Stream(title=f'extra {name}', directory=name, marlin_la_url=None, playready_la_url=None)
             models.db.session.add(stream)
             for stem, recipe in sorted(files.items()):
-                data = synth.make_file(**recipe)
+                data = synth.make_file(**recipe) if recipe is not None else b'this is not an MP4 file' * 40
                 p = d / f'{stem}.mp4'
                 p.write_bytes(data)
                 ctype = 'video' if '_v' in stem else 'audio'
@@ -377,6 +382,9 @@ class World:
                 mf = models.MediaFile(name=stem, stream=stream, content_type=ctype, blob=blob)
                 models.db.session.add(blob)
                 models.db.session.add(mf)
+                if recipe is None:
+                    mf.track_id = 1
+                    continue
                 if not (name == 'synunidx' and stem.endswith('v2')):
                     with p.open('rb', buffering=16384) as src:
                         atoms = mp4.Mp4Atom.load(src)
@@ -386,10 +394,16 @@ class World:
                     mf.track_id = rep.track_id
                     mf.encrypted = rep.encrypted
                     mf.set_representation(Representation(**rep.toJSON(pure=True)))   # as read back from the store
-                    if name != 'synnoref' and stream.timing_reference is None and ctype == 'video':
+                    if name != 'synnoref' and stream.timing_reference is None and (ctype == 'video' or name == 'synbroken'):
                         stream.timing_reference = mf.as_stream_timing_reference()
             self.stream_names.append(name)
         models.db.session.commit()
+
+    def add_extras_mps(self):
+        # multi-period streams over the streams with missing pieces (after testmps: its Period keys stay 1 and 2)
+        self.add_mps('mpsbroken', [dict(pid='b1', stream='synbroken', start=0, duration=4, tracks=[('video', 1), ('audio', 2)]),
+                                   dict(pid='b2', stream='synvid', start=0, duration=4, tracks=[('video', 1)])])
+        self.add_mps('mpsunidx', [dict(pid='u1', stream='synunidx', start=0, duration=4, tracks=[('video', 1)])])
 
     def add_mps(self, name, periods, title=None):
         """periods: list of dict(pid, stream, start (s), duration (s), tracks=[(content_type, track_id)])"""
